@@ -1058,7 +1058,102 @@ def plan(tier, seed, budget):
     ssh = 8 if tier == "quick" else 32
     for _ in range(ssh):
         specs.append({"part": "seq", "n": max(1, nseq // ssh)})
+    specs.append({"part": "functions"})
     return specs
+
+
+# ----------------------------------------------------------------------------- function bodies (build_function)
+FN_OPS = [("Add", 2), ("Sub", 2), ("Mul", 2), ("Div", 2), ("Max", 2), ("Min", 2), ("Where", 3), ("Clip", 3), ("Equal", 2), ("Less", 2)]
+# (Pow is left out: base and exponent have type variables of their own, so neither is the sibling of the other)
+FN_DTYPES = ["FLOAT", "DOUBLE", "FLOAT16", "BFLOAT16", "INT32", "INT64", "UINT8", "INT8", "INT16"]
+FN_LITS = [1, 2, 0, 3.0, 2.5, 0.5, -0.0]
+
+
+def function_case(op, arity, dtype, lit, pos):
+    """A function body traced with builder.build_function: `op(x, <literal>)` with a typed input.  The literals of a function body are
+    lifted into Constant nodes: the serialized Constant must carry the element type of the sibling (same rule as in a graph)."""
+    from onnx import numpy_helper
+
+    from onnxscript._internal import builder
+
+    ir = _ir()
+    dt = ir.DataType[dtype]
+    if isinstance(lit, float) and not dt.is_floating_point():
+        return None
+
+    def make(name, d=dt):
+        return ir.Value(name=name, type=ir.TensorType(d), shape=ir.Shape([2]))
+
+    if op == "Where":
+        ins = [make("c", ir.DataType.BOOL), make("x")]
+        args = lambda o, c, x: (c, x, lit) if pos else (c, lit, x)  # noqa: E731
+        lit_index = 2 if pos else 1
+    elif op == "Clip":
+        ins = [make("x")]
+        args = lambda o, x: (x, lit, None) if pos == 0 else (x, None, lit)  # noqa: E731
+        lit_index = 1 if pos == 0 else 2
+    else:
+        ins = [make("x")]
+        args = lambda o, x: (x, lit) if pos else (lit, x)  # noqa: E731
+        lit_index = 1 if pos else 0
+    try:
+        fn = builder.build_function(lambda o, *a: getattr(o, op)(*args(o, *a)), ins, domain="verif.fn", name="f", opset_imports={"": 21})
+        fp = ir.serde.serialize_function(fn)
+    except Exception as e:  # noqa: BLE001
+        return ("refuse", f"{type(e).__name__}: {str(e)[:120]}")
+    node = next((n for n in fp.node if n.op_type == op), None)
+    if node is None or lit_index >= len(node.input):
+        return ("odd", "operator node not found")
+    name = node.input[lit_index]
+    prod = next((n for n in fp.node if name in n.output), None)
+    like = None
+    if prod is not None and prod.op_type == "CastLike":
+        like = prod.input[1]
+        name = prod.input[0]
+        prod = next((n for n in fp.node if name in n.output), None)
+    if prod is None or prod.op_type != "Constant" or not prod.attribute:
+        return ("odd", f"literal operand produced by {prod.op_type if prod is not None else None}")
+    a = prod.attribute[0]
+    if a.name == "value":
+        arr = numpy_helper.to_array(a.t)
+        et = ir.DataType(a.t.data_type).name
+    elif a.name == "value_int":
+        arr, et = np.asarray(a.i), "INT64"
+    elif a.name == "value_float":
+        arr, et = np.asarray(a.f, dtype=np.float32), "FLOAT"
+    else:
+        return ("odd", "Constant form " + a.name)
+    if like is not None:
+        return ("odd", "CastLike although the sibling's type is known")
+    return ("val", et, float(np.asarray(arr, dtype=np.float64).reshape(-1)[0]), bool(np.signbit(np.asarray(arr, dtype=np.float64).reshape(-1)[0])), tuple(np.shape(arr)))
+
+
+def run_functions(spec, col):
+    for op, arity in FN_OPS:
+        for dtype in FN_DTYPES:
+            for lit in FN_LITS:
+                for pos in (0, 1):
+                    r = function_case(op, arity, dtype, lit, pos)
+                    if r is None:
+                        continue
+                    case = {"op": op, "arity": arity, "dtype": dtype, "lit": repr(lit), "pos": pos}
+                    col.case(("fn", op, dtype, repr(lit), pos), dtype not in ("FLOAT", "INT64"), [f"function_body:{op}", f"function_body:sibling:{dtype}", "function_body:" + r[0]],
+                             sample={"build_function": f"op.{op}(x: {dtype}, {lit!r}) literal at operand {pos}", "observed": list(r)} if (op, dtype, pos) in (("Mul", "FLOAT16", 1), ("Where", "INT32", 0)) else None)
+                    for bucket, detail in judge_function(case, r):
+                        col.violation(bucket, detail, {"kind": "function", "case": case}, size=1)
+
+
+def judge_function(case, r):
+    if r[0] != "val":
+        return []  # a refusal or an unfamiliar lifting form is not judged here (the graph front end is judged in the exhaustive part)
+    lit = eval(case["lit"])  # noqa: S307
+    out = []
+    if r[1] != case["dtype"]:
+        out.append((f"function_body:dtype:{'float' if isinstance(lit, float) else 'int'} literal", f"build_function op.{case['op']}(x: {case['dtype']}, {case['lit']}) at operand {case['pos']}: "
+                    f"lifted Constant has element type {r[1]}, the sibling's type is {case['dtype']}"))
+    elif r[2] != float(lit) or (isinstance(lit, float) and r[3] != bool(np.signbit(lit))) or r[4] != ():
+        out.append(("function_body:value", f"build_function op.{case['op']}(x: {case['dtype']}, {case['lit']}): lifted Constant holds {r[2]} (sign bit {r[3]}, shape {r[4]})"))
+    return out
 
 
 def run_shard(spec):
@@ -1074,12 +1169,18 @@ def run_shard(spec):
             for why in spec["skipped_ops"].values():
                 col.skip("op:" + why)
         run_exhaustive(spec, col)
+    elif spec["part"] == "functions":
+        run_functions(spec, col)
     else:
         run_sequences(spec, col)
     return col.result()
 
 
 def replay(case):
+    if case["kind"] == "function":
+        c = case["case"]
+        r = function_case(c["op"], c["arity"], c["dtype"], eval(c["lit"]), c["pos"])  # noqa: S307
+        return judge_function(c, r) if r else []
     if case["kind"] == "single":
         c = case["case"]
         verdicts, _ = judge(c, observe_case(c))
